@@ -34,7 +34,8 @@ ASSUMPTIONS = ["CPython with the GIL; preemption forced by a 1 us switch interva
                "thread runs use whole validations, step-level interleaving is cooperative only (as the property says)"]
 REPORT_COUNTERS = ["groups", "schedules", "schedules_exhaustive_groups", "thread_runs", "thread_validations",
                    "thread_runs_20plus_switches", "observed_switches", "collision:refs", "collision:remote",
-                   "collision:regex", "collision:format", "collision:types", "distinct_interleaving_signatures"]
+                   "collision:regex", "collision:format", "collision:types", "collision:same-schema-object",
+                   "distinct_interleaving_signatures"]
 TRIPWIRE_EXPECTED = ()
 
 
@@ -46,7 +47,7 @@ def floors(tier):
     f = {"groups": 300, "schedules": 5000, "schedules_exhaustive_groups": 100, "thread_runs": 100,
          "thread_validations": 5000, "thread_runs_20plus_switches": 50, "observed_switches": 2000,
          "distinct_interleaving_signatures": 50}
-    for k in ("refs", "remote", "regex", "format", "types"):
+    for k in ("refs", "remote", "regex", "format", "types", "same-schema-object"):
         f["collision:" + k] = 100
     return f
 
@@ -62,7 +63,10 @@ def make_member(rng, d, k, kinds):
     idk = impl.IDKW[d]
     leafA, leafB = rng.sample(LEAVES, 2)
     props = {}
-    defs = {"a": leafA, "b": leafB, "deep": {"properties": {"x": {"items": {"$ref": "#/definitions/a"}}}}}
+    # `deep` changes the base URI while it is being evaluated: a validator suspended inside it holds a scope
+    # that would misdirect the relative references of any validator sharing its resolver
+    defs = {"a": leafA, "b": leafB,
+            "deep": {idk: "http://other.example/sub/", "properties": {"x": {"items": {"$ref": R.ROOT_URL + "#/definitions/a"}}}}}
     store = None
     handlers = {}
     cls = impl.CLS[d]
@@ -122,18 +126,36 @@ def group_plan(gseed):
     rng = random.Random(gseed)
     kinds = set(rng.sample(["refs", "remote", "regex", "format", "types"], rng.randrange(1, 4)))
     n = rng.choice([2, 2, 3])
+    if rng.random() < 0.3:
+        # several validators built from the very same schema OBJECT (no resolver passed): each still gets its own resolver
+        kinds = {"refs", "same-schema-object"}
     return kinds, n
 
 
-def make_one(gseed, d, k):
+def make_one(gseed, d, k, shared=None):
     """Member k of group gseed, built WITHOUT building the others (each member has its own seed)."""
     kinds, n = group_plan(gseed)
+    if "same-schema-object" in kinds:
+        m0 = make_member(random.Random(gseed * 31), d, 0, {"refs"})
+        mk = make_member(random.Random(gseed * 31 + k), d, k, {"refs"})
+        S = shared if shared is not None else m0["schema"]
+        cls = impl.CLS[d]
+        inst = {n_: mk["instance"].get(n_, 1) for n_ in S["properties"]}
+        inst["r3"] = {"x": [1, "s", None]}
+        return {"schema": S, "instance": inst, "draft": d, "build": (lambda: cls(S))}
     return make_member(random.Random(gseed * 31 + k), d, k, kinds)
 
 
 def make_group(gseed, d):
     kinds, n = group_plan(gseed)
-    return [make_one(gseed, d, k) for k in range(n)], kinds
+    members = []
+    shared = None
+    for k in range(n):
+        m = make_one(gseed, d, k, shared=shared)
+        if "same-schema-object" in kinds:
+            shared = m["schema"]
+        members.append(m)
+    return members, kinds
 
 
 def fork_run(fn):
